@@ -45,6 +45,13 @@ type c04DeclBoolChoice struct {
 	S string `short:"s"`
 }
 
+type c04DeclEnv struct {
+	F bool   `short:"f" long:"flag"`
+	N int    `long:"num" env:"C04_NUM"`
+	C string `long:"cho" env:"C04_CHO" choice:"a" choice:"b"`
+	L []int  `long:"lst" env:"C04_LST" env-delim:","`
+}
+
 func c04Parser(v *V, variant int, opts Options, cbCalled *bool) *Parser {
 	p := NewNamedParser("prog", opts)
 	switch variant {
@@ -64,6 +71,8 @@ func c04Parser(v *V, variant int, opts Options, cbCalled *bool) *Parser {
 		p.AddGroup("Application Options", "", &c04DeclBoolChoice{})
 	case 3:
 		p.AddGroup("Application Options", "", &c04DeclHiddenCmds{})
+	case 4:
+		p.AddGroup("Application Options", "", &c04DeclEnv{})
 	}
 	return p
 }
@@ -178,6 +187,21 @@ func H_C04_typed(v *V) {
 			fault = append([]string{"w", "cmd"}, fault...)
 		}
 		want = ErrHelp
+	case 12: // the fault arrives through the environment: not a number
+		variant = 4
+		v.Assume(!refIsDecimal(V))
+		v.Setenv("C04_NUM", V)
+		fault, want = nil, ErrMarshal
+	case 13: // ... a value outside the declared choices
+		variant = 4
+		v.Assume(V != "a" && V != "b")
+		v.Setenv("C04_CHO", V)
+		fault, want = nil, ErrInvalidChoice
+	case 14: // ... one element of a delimited list does not convert
+		variant = 4
+		v.Assume(!refIsDecimal(V) && refIndexByte(V, ',') < 0)
+		v.Setenv("C04_LST", "1,"+V)
+		fault, want = nil, ErrMarshal
 	}
 	// valid surroundings
 	var pre, post []string
